@@ -178,6 +178,25 @@ def run_one(ck, prog):
                         (isinstance(e, tuple) and e[0] == "bin" and e[1] == "Sub" and strip_casts(e[3])[0] == "call" and strip_casts(e[3])[3] == 0)
                     ck.ob("C15.2", f"ok-returns-appended-count|{n_ok}", bool(ok), fn=fn["path"], detail=f"Ok must carry buf.len() - start_len (start_len taken on entry); found {show(e)}")
         ck.floor("C15.2", "Ok returns", n_ok, 2)
+        # the end of the stream is a read that delivered nothing - a short read is not the end
+        def is_count(x):
+            return mentions(x, ctx.prov, lambda z: z[0] == "call" and (z[1] or "").endswith(("ReadBuf::<'a>::filled_len", "io::Read::read")))
+        zero_edges = set()
+        for sb in cfg.live_blocks():
+            if cfg.term(sb)["k"] != "switch":
+                continue
+            for e in cfg.succ[sb]:
+                for f in ctx.edge_facts(e):
+                    if f[0] != "cmp":
+                        continue
+                    l, r = fold(f[2]), fold(f[3])
+                    if (f[1] == "Eq" and ((r == 0 and is_count(f[2])) or (l == 0 and is_count(f[3])))) or (f[1] == "Lt" and r == 1 and is_count(f[2])) or (f[1] == "Le" and r == 0 and is_count(f[2])):
+                        zero_edges.add((e.src, e.dst))
+        ok_blocks = [b["id"] for b in fn["blocks"] if b["id"] in cfg.live_blocks() and not b.get("cleanup") and
+                     any(s["k"] == "assign" and s["dst"]["l"] == 0 and not s["dst"].get("p") and s["rv"]["k"] == "agg" and s["rv"].get("variant") == "Ok" for s in b["stmts"])]
+        without = cfg.reachable_from(0, avoid_edges=zero_edges)
+        ck.ob("C15.2", "ok-only-after-a-read-of-zero", bool(zero_edges) and bool(ok_blocks) and not any(b in without for b in ok_blocks), fn=fn["path"],
+              detail="read_to_end may report success only after a read delivered 0 bytes (filled_len() == 0 or the probe's Ok(0)); a read that merely left room is not the end of the data")
         # the probe appends exactly probe[..n]
         ext = [bb for bb, t in cfg.calls(lambda t: (t.get("callee") or "").endswith("extend_from_slice"))]
         for bb in ext:
